@@ -118,13 +118,19 @@ def make_stub():
 
         pairing_errors = []     # (where, candidate) whenever a candidate is evaluated on a sub-volume masked with another candidate's mask
 
+        expected_masks = None   # per candidate, set by the harness from an independent source (a one-template model: rotation order only)
+
         def _pair(self, subvolume, i, where):
-            tpl, msk = self._get_template_and_mask_input()
-            msk = np.asarray(msk)
-            if msk.ndim != 4:
-                return
+            if Scripted.expected_masks is not None:
+                want = np.asarray(Scripted.expected_masks[i])
+            else:
+                tpl, msk = self._get_template_and_mask_input()
+                msk = np.asarray(msk)
+                if msk.ndim != 4:
+                    return
+                want = msk[i]
             sv = np.asarray(subvolume, dtype=np.float64)
-            if sv.max() <= 0 or msk[i].max() <= 0 or not np.allclose(sv / sv.max(), msk[i] / msk[i].max(), atol=1e-3):
+            if sv.max() <= 0 or want.max() <= 0 or not np.allclose(sv / sv.max(), want / want.max(), atol=1e-3):
                 Scripted.pairing_errors.append((where, int(i)))
 
         def _landscape(self, subvolume, template, max_shifts, quaternion, pos, backend):
@@ -179,7 +185,13 @@ def corr_scripted(ck, rng):
                 model = Stub(tmpls if T > 1 else tmpls[0], mask, rotations=rots)
                 img = np.ones((3, 3, 3), dtype=np.float32)
                 Stub.pairing_errors.clear()
+                Stub.expected_masks = None
+                if mask is not None and K > 1:
+                    # candidate k*T + j must see the mask rotated by rotation k: rotated masks taken from a one-template model
+                    ref_masks = np.asarray(Stub(tmpls[0], mask, rotations=rots)._get_template_and_mask_input()[1])
+                    Stub.expected_masks = [ref_masks[c_ // T] for c_ in range(T * K)]
                 res = model.align(img, (1, 1, 1))
+                Stub.expected_masks = None
                 ck.oracle_count("candidate_uses_own_mask", 1, 1 if (mask is not None and K > 1) else 0)
                 if Stub.pairing_errors:
                     ck.violation(what=f"model.align: candidates {sorted(set(i_ for _, i_ in Stub.pairing_errors))} were scored on a sub-volume masked with another candidate's mask",
@@ -230,7 +242,7 @@ def corr_loader(ck, rng):
         else:
             rots = rot_set(K, rng) if K > 1 else None
             kw = dict(rotations=rots) if rots is not None else {}
-        vias = ["loader"] if tag == "big" else ["loader", "loader-align-list", "group", "group-mapping", "group-hetero"]
+        vias = ["loader"] if tag == "big" else ["loader", "loader-align-list", "loader-factory", "group", "group-mapping", "group-hetero"]
         for via in vias:
             if T == 1 and via != "loader":
                 continue
@@ -257,6 +269,12 @@ def corr_loader(ck, rng):
                         out = ld.align(tmpls[0], max_shifts=1.0, alignment_model=Stub, **kw)
                     else:
                         out = ld.align_multi_templates(tmpls, max_shifts=1.0, alignment_model=Stub, **kw)
+                    rows = [(out.molecules, [0, 1, 2, 3])]
+                elif via == "loader-factory":
+                    # the rotation search is configured on the model factory (with_params), not passed as a loader keyword
+                    if T == 1 or not kw:
+                        continue
+                    out = ld.align_multi_templates(tmpls, max_shifts=1.0, alignment_model=Stub.with_params(**kw))
                     rows = [(out.molecules, [0, 1, 2, 3])]
                 elif via == "loader-align-list":
                     # align() given several templates hands over to the multi-template search with all its options
